@@ -576,6 +576,11 @@ def build(tier):
     rep.replayers["C19/utils.real_samples/"] = native_replay
     rep.replayers["C19/products/"] = lambda o: dict(replayed=bool((o.meta or {}).get("bad")), witness_class="%s %s" % ((o.meta or {}).get("products"), ((o.meta or {}).get("bad") or [""])[0][:80]), bad=(o.meta or {}).get("bad"))
     rep.replayers["C19/kernel/"] = kernel_replay
+    # bounded stand-in: the real real_samples natively for many sizes, all flag combinations, directed bounds (never proofs)
+    from vf.contracts import C19_bounded
+
+    C19_bounded.run(rep, tier)
+    rep.replayers["C19/bounded"] = C19_bounded.replay
     return rep
 
 
@@ -589,6 +594,9 @@ def main(tier, only=None):
 def replay(path):
     d = json.load(open(path))
     o = core.Obligation(id=d["obligation"], prop=PROP, model=d.get("model"), meta=d.get("meta") or {})
+    if (o.meta or {}).get("part") == "bounded":
+        print(json.dumps(o.meta.get("fails"), indent=1, default=str))
+        return 1 if o.meta.get("fails") else 0
     info = native_replay(o)
     print(json.dumps(info, indent=1, default=str))
     return 1 if info.get("replayed") else 0
